@@ -5,12 +5,15 @@ import (
 	"crypto/rand"
 	"crypto/rsa"
 	"crypto/tls"
+	"crypto/x509"
+	"encoding/pem"
 	"encoding/xml"
 	"fmt"
 	"math/big"
 	"regexp"
 	"strings"
 	"sync"
+	"sync/atomic"
 
 	saml2 "github.com/russellhaering/gosaml2"
 	"github.com/russellhaering/gosaml2/types"
@@ -22,7 +25,7 @@ import (
 
 func init() {
 	register(&Prop{ID: "C11", Run: runC11, MinNontrivial: 500,
-		Rule:        "direct class: byte strings of every length 0-48 (random, trailing zero bytes, all zero) encrypted by the harness under each of the 5 advertised data algorithms x {OAEP-MGF1P, OAEP-1.1} x digest {absent, \"\", SHA-1, SHA-256, SHA-512} + PKCS#1 v1.5, EncryptedKey inline or detached, recipient certificate absent or matching, CBC filler PKCS#7/zeros/random, decoded through the library's own struct tags and decrypted with DecryptBytes/Decrypt -> plaintext equality; twin class: an IdP-signed assertion padded to every residue mod 16, presented encrypted and plain to SPs keyed by field (X509KeyStore or tls.Certificate store) / setter / both(same) / both(different, setter wins) -> same outcome and data; non-trivial = the decryption routine ran (no parse failure before it); distinct by parameter tuple; the algorithm list is read from Metadata()/MetadataWithSLO() at run time; key configurations with an expired / not-yet-valid pair left in the deprecated field and ValidateEncryptionCert on; plaintexts cut byte-for-byte out of the twin (no own namespace declarations); decompression limits 1/1000/4096 with uncompressed twins; keys with a 2047-bit modulus and keys without prime factors; digest identifiers harvested from the library source in the direct round trips; plaintext prefixes (BOM, XML declaration, white space, comment)",
+		Rule:        "direct class: byte strings of every length 0-48 (random, trailing zero bytes, all zero) encrypted by the harness under each of the 5 advertised data algorithms x {OAEP-MGF1P, OAEP-1.1} x digest {absent, \"\", SHA-1, SHA-256, SHA-512} + PKCS#1 v1.5, EncryptedKey inline or detached, recipient certificate absent or matching, CBC filler PKCS#7/zeros/random, decoded through the library's own struct tags and decrypted with DecryptBytes/Decrypt -> plaintext equality; twin class: an IdP-signed assertion padded to every residue mod 16, presented encrypted and plain to SPs keyed by field (X509KeyStore or tls.Certificate store) / setter / both(same) / both(different, setter wins) -> same outcome and data; non-trivial = the decryption routine ran (no parse failure before it); distinct by parameter tuple; the algorithm list is read from Metadata()/MetadataWithSLO() at run time; key configurations with an expired / not-yet-valid pair left in the deprecated field and ValidateEncryptionCert on; plaintexts cut byte-for-byte out of the twin (no own namespace declarations); decompression limits 1/1000/4096 with uncompressed twins; keys with a 2047-bit modulus and keys without prime factors; digest identifiers harvested from the library source in the direct round trips; plaintext prefixes (BOM, XML declaration, white space, comment); an 8192-bit SP key (fixture); an SP certificate crypto/x509 cannot parse (ValidateEncryptionCert off)",
 		Assumptions: []string{"OAEP is produced with rsa.EncryptOAEP(h) (same hash for label and MGF1), the inverse of what the library calls; the property fixes no MGF", "setter keys are *rsa.PrivateKey values (a crypto.Signer that cannot decrypt cannot be an encryption key)"}})
 }
 
@@ -100,6 +103,34 @@ func c11KeyConfigs() []c11key {
 		{"field-odd-modulus-2047", func(w *World, sp *saml2.SAMLServiceProvider) *sim.Cert {
 			c := oddModulusCert(w)
 			sp.SPKeyStore = &RSAKeyStore{C: c}
+			return c
+		}},
+		{"setter-rsa-8192", func(w *World, sp *saml2.SAMLServiceProvider) *sim.Cert {
+			c := bigKeyCert(w)
+			sp.SetSPKeyStore(&saml2.KeyStore{Signer: c.Key.Signer, Cert: c.DER})
+			return c
+		}},
+		{"field-rsa-8192", func(w *World, sp *saml2.SAMLServiceProvider) *sim.Cert {
+			c := bigKeyCert(w)
+			sp.SPKeyStore = &RSAKeyStore{C: c}
+			return c
+		}},
+		{"setter-cert-go-cannot-parse", func(w *World, sp *saml2.SAMLServiceProvider) *sim.Cert {
+			// the SP certificate is a byte string to the decryption path (compared with the one an EncryptedKey names);
+			// one that other stacks read and crypto/x509 refuses (an underscore in a PrintableString) serves as well,
+			// as long as the SP is not asked to check its validity period
+			c := legacyCert(w)
+			sp.SetSPKeyStore(&saml2.KeyStore{Signer: c.Key.Signer, Cert: c.DER})
+			sp.ValidateEncryptionCert = false
+			return c
+		}},
+		{"field-cert-go-cannot-parse", func(w *World, sp *saml2.SAMLServiceProvider) *sim.Cert {
+			c := legacyCert(w)
+			sp.SPKeyStore = rawKeyStore{c.Key.RSA(), c.DER}
+			if legacyAlt.Add(1)%2 == 0 {
+				sp.SPKeyStore = dsig.TLSCertKeyStore(tls.Certificate{Certificate: [][]byte{c.DER}, PrivateKey: c.Key.RSA()})
+			}
+			sp.ValidateEncryptionCert = false
 			return c
 		}},
 		{"setter+signing-field", func(w *World, sp *saml2.SAMLServiceProvider) *sim.Cert {
@@ -443,4 +474,39 @@ func oddModulusCert(w *World) *sim.Cert {
 		}
 	})
 	return sim.Wide(oddKey, w.Now)
+}
+
+var (
+	bigOnce   sync.Once
+	bigKey    *sim.Key
+	legacyOne sync.Once
+	legacyC   *sim.Cert
+	legacyAlt atomic.Int64
+)
+
+// bigKeyCert returns a certificate over the fixed 8192-bit key.
+func bigKeyCert(w *World) *sim.Cert {
+	bigOnce.Do(func() {
+		blk, _ := pem.Decode([]byte(rsa8192PEM))
+		k, err := x509.ParsePKCS1PrivateKey(blk.Bytes)
+		if err != nil {
+			panic(err)
+		}
+		bigKey = &sim.Key{Name: "rsa8192", Signer: k}
+	})
+	return sim.Wide(bigKey, w.Now)
+}
+
+// legacyCert returns the SP certificate re-encoded the way some appliances issue them: the subject holds an underscore
+// in a PrintableString, which crypto/x509 refuses to parse (X509 still describes the original for the simulator).
+func legacyCert(w *World) *sim.Cert {
+	legacyOne.Do(func() {
+		orig := sim.MintNamed(sim.K("spenc"), "sp-portal.example.test", w.Now.AddDate(-5, 0, 0), w.Now.AddDate(5, 0, 0), 88)
+		der := bytes.ReplaceAll(orig.DER, []byte("sp-portal.example.test"), []byte("sp_portal.example.test"))
+		if _, err := x509.ParseCertificate(der); err == nil {
+			der = orig.DER // this crypto/x509 reads it after all: nothing special about it then
+		}
+		legacyC = &sim.Cert{Key: orig.Key, DER: der, X509: orig.X509}
+	})
+	return legacyC
 }
